@@ -6,6 +6,10 @@
      corr : the model (Model/ErrCont.v, Model/ErrRoute.v) predicts exactly these observations
      ok   : the observations are what Spec/ErrLog.v says they must be, computed from
             the history alone (the model is not consulted)
+   A table case may involve a second table (CTab2): the other table's Errors()
+   is then part of every step's observation; it and the lists of the rows it
+   took are compared with the model (corr), the property's oracle (ok) judges
+   the table under test and the rows outside both tables.
    result code: Run/Glue.v [code], plus 4 when a table history is not well-formed
    (a harness bug, never a verdict on the code). *)
 From Tab Require Export Run.Glue Model.ErrCont Model.ErrRoute Spec.ErrLog.
@@ -51,60 +55,78 @@ Definition rows_eqb (a b : list (nat * option (list err))) : bool :=
 Definition tobs_eqb (a b : tobs) : bool :=
   res_eqb (fun x y => errs_eqb (fst x) (fst y) && rows_eqb (snd x) (snd y)) a b.
 
-Fixpoint tab_model (st : tstate) (steps : list (list event * tobs)) : list tobs :=
+(* a step: the events, what was read from the table and the rows, and what
+   the other table's Errors() returned (None while there is no other table:
+   the model's other table is tabular.New(), which shows nil) *)
+Definition tstep := (list event * tobs * option (list err))%type.
+
+Fixpoint tab_model (st : tstate) (steps : list tstep) : list (tobs * option (list err)) :=
   match steps with
   | [] => []
-  | (evs, ob) :: r =>
+  | (evs, ob, _) :: r =>
       let st' := run_from st evs in
       let rows := match ob with Ok (_, rows) => map fst rows | _ => [] end in
-      Ok (table_errors st', map (fun k => (k, row_errors st' k)) rows) :: tab_model st' r
+      (Ok (table_errors st', map (fun k => (k, row_errors st' k)) rows), other_errors st') :: tab_model st' r
   end.
 
-Fixpoint tab_ok (pre : list event) (steps : list (list event * tobs)) : bool :=
+Fixpoint tab_ok (pre : list event) (steps : list tstep) : bool :=
   match steps with
   | [] => true
-  | (evs, ob) :: r =>
+  | (evs, ob, _) :: r =>
       let pre' := pre ++ evs in
       match ob with
       | Ok (t, rows) =>
           errs_eqb t (view (expected_errors pre'))
           (* a row outside the table shows its own pending errors; what a row inside
-             the table shows is not the property's business (corr compares it) *)
-          && forallb (fun p => joined pre' (fst p) || errs_eqb (snd p) (view (expected_row pre' (fst p)))) rows
+             the table, or one the other table has taken, shows is not the
+             property's business (corr compares it, and the other table's list) *)
+          && forallb (fun p => joined pre' (fst p) || taken pre' (fst p)
+                               || errs_eqb (snd p) (view (expected_row pre' (fst p)))) rows
       | _ => false
       end && tab_ok pre' r
   end.
 
 Inductive c11_case :=
 | CCont (m : cmode) (steps : list (cop * cobs))
-| CTab (steps : list (list event * tobs)).
+| CTab (steps : list (list event * tobs))
+| CTab2 (steps : list tstep).
+
+Definition no_other (steps : list (list event * tobs)) : list tstep := map (fun s => (s, None)) steps.
 
 Definition C11_ok (c : c11_case) : bool :=
   match c with
   | CCont m steps => cont_ok m [] steps
-  | CTab steps => tab_ok [] steps
+  | CTab steps => tab_ok [] (no_other steps)
+  | CTab2 steps => tab_ok [] steps
   end.
+
+Definition tab_corr (steps : list tstep) : bool :=
+  list_eqb (fun a b => tobs_eqb (fst a) (fst b) && errs_eqb (snd a) (snd b))
+           (tab_model init steps) (map (fun s => (snd (fst s), snd s)) steps).
 
 Definition C11_corr (c : c11_case) : bool :=
   match c with
   | CCont m steps => list_eqb cobs_eqb (cont_model (create m) (map fst steps)) (map snd steps)
-  | CTab steps => list_eqb tobs_eqb (tab_model init steps) (map snd steps)
+  | CTab steps => tab_corr (no_other steps)
+  | CTab2 steps => tab_corr steps
   end.
 
 Definition C11_wf (c : c11_case) : bool :=
   match c with
   | CCont _ _ => true
   | CTab steps => wf_histb (concat (map fst steps))
+  | CTab2 steps => wf_histb (concat (map (fun s => fst (fst s)) steps))
   end.
 
 Definition C11_case (c : c11_case) : N :=
   ((if C11_wf c then 0 else 4) + code (C11_corr c) (C11_ok c))%N.
 
 (* what the model computes, for replays: its observations, and the log the spec expects *)
-Definition C11_model (c : c11_case) : list cobs * list tobs * list errid :=
+Definition C11_model (c : c11_case) : list cobs * list (tobs * option (list err)) * list errid :=
   match c with
   | CCont m steps => (cont_model (create m) (map fst steps), [], cont_expected m (map fst steps))
-  | CTab steps => ([], tab_model init steps, expected_errors (concat (map fst steps)))
+  | CTab steps => ([], tab_model init (no_other steps), expected_errors (concat (map fst steps)))
+  | CTab2 steps => ([], tab_model init steps, expected_errors (concat (map (fun s => fst (fst s)) steps)))
   end.
 
 (* short forms for cases.v (elaborating the literals is what a run costs) *)
